@@ -1,11 +1,11 @@
 #!/bin/bash
 # usage: run_mutants.sh [pattern]  : apply every mutants/<ID>-*.patch to a scratch worktree of /repo HEAD, run the quick check of <ID>
 # against it (VERIF_REPO) and report caught / missed / does-not-apply. Results -> mutants/RESULTS.md
-cd /verif; PAT=${1:-C}; : > /var/tmp/mutants_results.txt
+cd /verif; PAT=${1:-C}; [ "$PAT" = C ] && : > /var/tmp/mutants_results.txt
 for p in $(ls mutants/*.patch | grep "$PAT"); do
   id=$(basename $p | cut -d- -f1); WT=/var/tmp/mut_$$
   git -C /repo worktree add -q $WT HEAD || exit 2
-  if git -C $WT apply /verif/$p 2>/dev/null || (cd $WT && patch -p1 -s --fuzz=3 < /verif/$p >/dev/null 2>&1); then
+  if git -C $WT apply /verif/$p 2>/dev/null || git -C $WT apply -p0 /verif/$p 2>/dev/null || (cd $WT && patch -p1 -s --fuzz=3 < /verif/$p >/dev/null 2>&1) || (cd $WT && git checkout -q . && patch -p0 -s --fuzz=3 < /verif/$p >/dev/null 2>&1); then
     out=$(VERIF_REPO=$WT timeout 1500 /venv/bin/python check.py $id 2>&1); rc=$?
     first=$(echo "$out" | grep -m1 "violation clause" | cut -c1-120)
     echo "$(basename $p) | rc=$rc | $([ $rc -eq 1 ] && echo caught || echo MISSED) | $first" | tee -a /var/tmp/mutants_results.txt
